@@ -1,1 +1,2 @@
 pub mod quake;
+pub mod valve;
